@@ -242,7 +242,11 @@ FaultFails(f2, ln) ==
       Fail(~o.open \/ \A k \in Keys : o.get[k] = o.idx[k], "C14:unreadable"),
       IF ln.op.op \in {"open", "reopen"} /\ ~ln.fault.hit THEN Fail(ln.res.ok, "C14:open-failed-" \o ln.res.err) ELSE {},
       IF ~ln.fault.hit /\ o.open /\ ln.op.op \in {"put", "del", "delr", "ckpt", "abort"}
-         THEN Fail(ln.res.ok, "C14:later-op-failed-" \o ln.res.err) ELSE {}
+         THEN Fail(ln.res.ok, "C14:later-op-failed-" \o ln.res.err) ELSE {},
+      \* C13 under one failing call: an abandoned transaction's staging file is gone unless the failing call was the
+      \* unlink of that very file (CasFault: ab_unlink - the error is ignored and the file stays)
+      IF ln.op.op = "abort" /\ o.open /\ ~(ln.fault.hit /\ ln.fault.call = "unlink") /\ ~sc.crashed
+         THEN Fail(o.disk.stg = 0, "C13:staging-file-left-by-abandoned-transaction") ELSE {}
     }
 
 \* C20 in the fault histories: snapshot plus log, decoded by the independent reader, equal the acknowledged history
@@ -399,7 +403,9 @@ OnFaultOp == /\ Line.ev = "op" /\ sc.mode = "fault"
                 /\ Report(FaultFails(f2, Line) \cup WellFormedFails(DiskOfJson(Line.obs.disk), m.n) \cup BlobFails(Line.obs.disk)
                           \cup FaultDecodeFails(f2, DiskOfJson(Line.obs.disk), m.n))
                 /\ fm' = f2
-             /\ UNCHANGED <<m, pobs, sc>>
+             \* (in fault histories sc.crashed remembers that the one failing call was an unlink: the file it named stays)
+             /\ sc' = [sc EXCEPT !.crashed = @ \/ (Line.fault.hit /\ Line.fault.call = "unlink")]
+             /\ UNCHANGED <<m, pobs>>
 
 \* the directory that is about to be damaged (a cleanly closed store or a crash image) is kept in pobs
 OnDmgBase == Line.ev = "dmgbase" /\ pobs' = [open |-> FALSE, disk |-> Line.disk] /\ UNCHANGED <<m, sc, fm>>
